@@ -98,7 +98,8 @@ Definition judge_c17 (g : cfg) (u : unit) (o : obs) : list N * unit :=
       match c_version pre with
       | VUndet =>
         (* version not determined: only a CONNECT of level 4 or 5 is acted upon *)
-        let good := (t =? 1) && (7 <=? N.of_nat (length body)) && ((nth 6 body 0 =? 4) || (nth 6 body 0 =? 5)) in
+        let good := (t =? 1) && (7 <=? N.of_nat (length body)) && ((nth 6 body 0 =? 4) || (nth 6 body 0 =? 5))
+                    && negb (match g_role g with RClient => true | _ => false end) (* a client never accepts CONNECT *) in
         if good then
           if ver_n (c_version (ob_post o)) =? nth 6 body 0 then ([], u) else ([5], u)
         else if existsb is_notify (ob_evs o) || negb (match sends (ob_evs o) with [] => true | _ => false end) then ([6], u)
